@@ -20,15 +20,26 @@ func (prop) Run(c core.Case) core.Outcome {
 	if c.Op == "bigpe" {
 		return runBig(c)
 	}
+	if c.Op == "bigsec" { // finding F-c02c-1 (bigsec.go); replay only
+		return runBigSec(c)
+	}
 	in, ops := ue.Unpack(c)
 	e := ue.Evaluate(in, ops)
 	out := core.Outcome{Class: e.Class(), Key: e.Key()}
 	out.Checks = append(out.Checks, e.ModelChecks(false)...)
 	out.Checks = append(out.Checks, createFvChecks(e)...) // sequences with create-fv: model of wp-c02b (createfv.go)
+	m3 := ops3Checks(e, isNvCase(c)) // sequences with nvram-compact / NVAR images: model of wp-c02c (ops3.go)
+	out.Checks = append(out.Checks, m3...)
+	if len(m3) > 0 && m3[0].What == "run-ops4" { // the histogram shows the tighten_me runs that were run on the model
+		out.Class += "|tighten-model"
+	}
 	out.Checks = append(out.Checks, e.InputValid())
 	out.Checks = append(out.Checks, e.ChecksC02()...)
 	if isNvCase(c) { // images with NVAR stores, nvram-compact (gap round 2, nvram.go)
 		out.Class = nvClass(c, e)
+		if len(m3) > 0 { // the histogram shows how many NVAR runs were also run on the model
+			out.Class += "|model"
+		}
 		out.Checks = append(out.Checks, nvChecks(e)...)
 	}
 	return out
@@ -39,10 +50,12 @@ func (prop) Gen(r *rand.Rand, tier string) []core.Case {
 	if tier == "thorough" {
 		cs := append(append(append(ue.ExhaustiveCases(3), append(ue.WrapperCases(), ue.TailCases()...)...), bigCases(tier)...), ue.RandomCases(r, 20000, true)...)
 		cs = append(cs, createFvCases(r, 1500)...)
-		return append(append(cs, ue.NvFixedCases()...), ue.NvRandomCases(r, 3000)...)
+		cs = append(append(cs, ue.NvFixedCases()...), ue.NvRandomCases(r, 3000)...)
+		return append(cs, tightenCases(r, 600)...) // round 3: tighten_me where it can succeed (tighten.go)
 	}
 	cs := append(append(append(ue.ExhaustiveCases(1), append(ue.WrapperCases(), ue.TailCases()...)...), bigCases(tier)...), ue.RandomCases(r, 400, true)...)
 	cs = append(cs, createFvCases(r, 120)...)
 	// images with NVAR stores and nvram-compact come last of all (gap round 2)
-	return append(append(cs, ue.NvFixedCases()...), ue.NvRandomCases(r, 250)...)
+	cs = append(append(cs, ue.NvFixedCases()...), ue.NvRandomCases(r, 250)...)
+	return append(cs, tightenCases(r, 60)...) // round 3: tighten_me where it can succeed (tighten.go), last of all
 }
